@@ -53,6 +53,7 @@ func report(id, tier string, seed int, cfg *Config, hdir string, results []*Entr
 	validated := 0
 	spurious := []string{}
 	knownHit := map[string]*violation{}
+	altViols := map[string][]*violation{}
 	var viols []*violation
 	endedCount := map[string]int{}
 	bounds := map[string]int64{}
@@ -137,6 +138,11 @@ func report(id, tier string, seed int, cfg *Config, hdir string, results []*Entr
 					if !seenV[key] {
 						seenV[key] = true
 						viols = append(viols, &violation{er, ob, pr.Bounds})
+					} else if len(altViols[key]) < 12 {
+						// other paths violating the same assertion: tried in turn when
+						// the first model does not reproduce natively (schedule- or
+						// timing-dependent counterexamples)
+						altViols[key] = append(altViols[key], &violation{er, ob, pr.Bounds})
 					}
 				case "known":
 					if _, ok := knownHit[ob.Known]; !ok {
@@ -227,6 +233,23 @@ func report(id, tier string, seed int, cfg *Config, hdir string, results []*Entr
 			say("ENGINE-REPLAY-BUILD entry=%s: %s", v.entry.Entry, firstLines(errOut, 15))
 			engineProblem = true
 			continue
+		}
+		if nr.Outcome != "assert" && nr.Outcome != "panic" {
+			key := v.entry.Entry + "|" + v.ob.Kind + "|" + v.ob.Msg + "|" + v.ob.Pos
+			if alts := altViols[key]; len(alts) > 0 {
+				scripts := map[string]*Script{}
+				for k, a := range alts {
+					scripts[fmt.Sprintf("alt%02d", k)] = scriptOf(a.entry.Entry, tier, a.ob.Model, a.bounds)
+				}
+				if res, _ := nativeRun(hdir, v.entry.Unit, scripts); res != nil {
+					for k, a := range alts {
+						if r := res[fmt.Sprintf("alt%02d", k)]; r != nil && (r.Outcome == "assert" || r.Outcome == "panic") {
+							v, nr = a, r
+							break
+						}
+					}
+				}
+			}
 		}
 		engineOnly := false
 		if nr.Outcome != "assert" && nr.Outcome != "panic" && contains(cfg.EngineConfirmed, v.entry.Entry) {
